@@ -9,6 +9,7 @@ pub mod relcommon;
 pub mod c06;
 pub mod c07;
 pub mod c08;
+pub mod c09;
 pub mod c11;
 pub mod c15;
 pub mod c10;
@@ -29,6 +30,7 @@ pub fn by_id(id: &str) -> Option<Box<dyn Monitor>> {
         "C04" => Box::new(c04::C04),
         "C05" => Box::new(c05::C05),
         "C06" => Box::new(c06::C06),
+        "C09" => Box::new(c09::C09),
         "C08" => Box::new(c08::C08),
         "C11" => Box::new(c11::C11),
         "C15" => Box::new(c15::C15),
